@@ -290,3 +290,51 @@ func zzSameTree(a, b reflect.Value) bool {
 	}
 	return reflect.DeepEqual(a.Interface(), b.Interface())
 }
+
+// ZZ_C08_number: every text of up to N bytes that the lexer reads as one Int or
+// Float literal in argument position (signs, fractions, exponents with e or E
+// and an optional sign) keeps its kind and its literal text across
+// print -> parse.
+func ZZ_C08_number() {
+	n := 1 + zzChoice("n", zzParam("N", 5))
+	lit := zzString("lit", n)
+	doc, err := zzParseText("{ f(a: " + lit + ") }")
+	if err != nil {
+		zzCover("rejected")
+		return
+	}
+	op, ok := doc.Definitions[0].(*ast.OperationDefinition)
+	if !ok || len(doc.Definitions) != 1 || len(op.SelectionSet.Selections) != 1 {
+		return
+	}
+	f, ok := op.SelectionSet.Selections[0].(*ast.Field)
+	if !ok || len(f.Arguments) != 1 {
+		return
+	}
+	var kind, text string
+	switch v := f.Arguments[0].Value.(type) {
+	case *ast.IntValue:
+		kind, text = "Int", v.Value
+	case *ast.FloatValue:
+		kind, text = "Float", v.Value
+	default:
+		return
+	}
+	printed := zzPrintString(doc)
+	doc2, err := zzParseText(printed)
+	zzAssert(err == nil, "printed document does not parse")
+	f2 := doc2.Definitions[0].(*ast.OperationDefinition).SelectionSet.Selections[0].(*ast.Field)
+	zzAssert(len(f2.Arguments) == 1, "argument lost")
+	switch v := f2.Arguments[0].Value.(type) {
+	case *ast.IntValue:
+		zzAssert(kind == "Int" && zzStrEq(v.Value, text), "Int literal changed by the round trip")
+	case *ast.FloatValue:
+		zzAssert(kind == "Float" && zzStrEq(v.Value, text), "Float literal changed by the round trip")
+	default:
+		zzFail("number literal became another kind")
+	}
+	if kind == "Float" {
+		zzCover("float")
+	}
+	zzCover("end")
+}
